@@ -4,13 +4,13 @@ import z3
 
 from pyvc.sym import Obj, ExcVal, PyList, PyDict
 from pyvc.engine import Unit, Obligation, outcome_of
-from pyvc.interp import EnvObj, Partial
+from pyvc.interp import EnvObj, Partial, Unsupported
 from pyvc.loader import FuncInfo
 from .common import func, cls
 from .lifecycle import lifecycle_interp
 
 PROP = "C17"
-LEVEL = "model_checking"      # the number of ports is enumerated (0..4): bounded in that parameter, not counted as proved
+LEVEL = "proof"      # any number of ports: loop-step lemmas with a symbolic port (units any_ports_*); the enumerated units are a supplement
 B = "aioswitcher.bridge."
 MIN_OBLIGATIONS = 200
 ASSUMPTIONS = [
@@ -20,8 +20,10 @@ ASSUMPTIONS = [
     "released once the loop has cycled; is_closing() is false for an open transport",
     "the event loop cycles between two bridge calls of a history",
 ]
-BOUNDED_PARTS = ["number of configured ports: enumerated 0..4 (the default configuration has 4); the port loops of start/stop are "
-                 "unrolled per count, not proved by an invariant for arbitrary n"]
+BOUNDED_PARTS = ["supplement only: the units methods_ports0..4 and the history units unroll the port loops for 0..4 / 2 ports; the proof for "
+                 "any number of ports is carried by the any_ports_* units (one loop iteration from an arbitrary RI state with a symbolic "
+                 "port, the code after the loops on an empty list, constructor and context manager against the start/stop contracts); "
+                 "the induction over the port list that combines them is a meta-argument (DESIGN.md 9.6), not machine-checked"]
 ENUMERATED = ["per port count n in 0..4: every RI pre-state (each port: never bound / bound and open / bound and closed; running flag as RI "
               "dictates) x every failure point of start (no failure, or OSError at port i)", "all histories of length <= 4 (quick) / 5 over "
               "{start ok, start failing at port i, stop, enter, leave, leave through exception} with 2 ports (bounded supplement)"]
@@ -29,7 +31,11 @@ EXPLANATION = ("representation invariant RI: (1) every open transport created by
                "<=> every configured port has a recorded open transport.  start / stop / __aenter__ / __aexit__ are executed from the AST "
                "from every RI state: start returns with all ports bound, the running flag set and each protocol wired to "
                "partial(_parse_device_from_datagram, on_device); if binding fails the OSError propagates and nothing this call bound is "
-               "left listening; stop always ends with no open transport and the flag cleared")
+               "left listening; stop always ends with no open transport and the flag cleared.  For any number of ports: loop invariant of "
+               "start = RI(1) + 'every port already iterated has a recorded open wired transport'; one iteration (symbolic port, recorded "
+               "entry none/open/closed, bind succeeding or failing) re-establishes it, stores only under its own port and leaves flag, "
+               "callback, port list alone; a failing bind runs stop (by contract) exactly once and re-raises OSError; loop invariant of "
+               "stop = 'every port already iterated has no open transport'; the code after either loop sets/clears the flag")
 PORTS = [20002, 10002, 20003, 10003]
 
 
@@ -142,6 +148,178 @@ def units(tier):
             return obs
         u[f"methods_ports{n}"] = Unit(f"methods_ports{n}", PROP, methods, functions=[B + "SwitcherBridge." + m for m in
                                       ("__init__", "start", "stop", "__aenter__", "__aexit__", "is_running")], max_paths=200000)
+
+    # ---- any number of ports: the two port loops proved by induction (one iteration from an arbitrary RI state, symbolic port) ----
+    import z3
+    from pyvc.capmodel import OneStep, LoopStepDone
+    from pyvc.interp import PyExc
+
+    class PortMap:
+        """self._transports seen from the one port under consideration: get(p) is None / an open / a closed transport (the
+        pre-state choice); stores are logged; entries of other ports are not representable, so any access to them is an error"""
+        def __init__(self, port, current):
+            self.port, self.current, self.stores = port, current, []
+
+    def portmap_method(ip, o, name, args, kw, ctx):
+        if not isinstance(o, PortMap) or name == "__getattr__":
+            return NotImplemented
+        if name == "get":
+            if args[0] is not o.port:
+                raise Unsupported("access to another port's entry inside the loop body")
+            return o.stores[-1][1] if o.stores else o.current
+        if name == "__setitem__":
+            if args[0] is not o.port:
+                raise Unsupported("store under another port inside the loop body")
+            o.stores.append((args[0], args[1]))
+            return None
+        if name == "__getitem__":
+            if args[0] is not o.port:
+                raise Unsupported("access to another port's entry inside the loop body")
+            v = o.stores[-1][1] if o.stores else o.current
+            if v is None:
+                raise PyExc(ExcVal("KeyError", ("port",)))
+            return v
+        raise Unsupported(f"{name} on the transports map inside the loop body")
+
+    class StopContract:
+        """SwitcherBridge.stop(): closes every recorded transport and clears the running flag (proved by the stop-step units +
+        the empty-list base case)"""
+        qualname = B + "SwitcherBridge.stop"
+
+        def apply(self, ip, f, args, kwargs, ctx):
+            b = args[0]
+            ctx.used_contracts.add(self.qualname + " -> every recorded transport closed, not running")
+            ctx.ghost.events.append(("stop_contract", b))
+            for t in getattr(ctx, "sockets", []):
+                t.state["closed"] = True
+            b.attrs["_is_running"] = False
+            return None
+
+    def step_setup(ip, ctx, pre):
+        from pyvc import capmodel
+        if getattr(ip, "loop_hook", None) is None:
+            capmodel.install(ip)
+        if portmap_method not in ip.method_models:
+            ip.method_models.insert(0, portmap_method)
+        b, cb = new_bridge(ip, ctx, 0)
+        port = z3.Int("port")
+        ctx.fact(z3.And(port >= 1, port <= 65535))
+        ctx.sockets = []
+        cur = None
+        if pre != "none":
+            cur = EnvObj("transport", port=port, closed=(pre == "closed"), protocol=None, created_by_call=0)
+            ctx.sockets.append(cur)
+        pm = PortMap(port, cur)
+        b.attrs["_transports"] = pm
+        b.attrs["_broadcast_ports"] = OneStep(port, {})
+        ctx.call_no = 1
+        return b, cb, port, pm, cur
+
+    def start_step(ip, ctx):
+        pre = ["none", "open", "closed"][ctx.fork(3)]
+        ip.contracts = {StopContract.qualname: StopContract()}
+        b, cb, port, pm, cur = step_setup(ip, ctx, pre)
+        b.attrs["_is_running"] = False if pre != "open" else bool(ctx.fork(2))
+        flag0 = b.attrs["_is_running"]
+        ctx.fail_at_bind = None if ctx.fork(2) == 0 else 0
+        base = f"{PROP}/any_ports/start_step/recorded_{pre}"
+        try:
+            ob = outcome_of(lambda: ip.call_function(b.cls.find_method("start"), [b], {}, ctx))
+            # the iteration failed: the handler ran
+            stops = [e for e in ctx.ghost.events if e[0] == "stop_contract"]
+            return [Obligation(base + "/bind_failure_raises_OSError_after_stop", ctx, ob[0] == "exc" and ob[1].cls == "OSError" and len(stops) == 1),
+                    Obligation(base + "/bind_failure_leaves_nothing_open", ctx, not [t for t in ctx.sockets if not t.state["closed"]]),
+                    Obligation(base + "/bind_failure_not_running", ctx, b.attrs.get("_is_running") is False),
+                    Obligation(base + "/fails_only_when_the_environment_refuses_the_bind", ctx, pre == "open" or ctx.fail_at_bind == 0)]
+        except LoopStepDone:
+            pass
+        new = [t for t in ctx.sockets if t is not cur]
+        rec = pm.stores[-1][1] if pm.stores else cur
+        open_now = [t for t in ctx.sockets if not t.state["closed"]]
+        return [Obligation(base + "/afterwards_this_port_has_a_recorded_open_transport", ctx,
+                           isinstance(rec, EnvObj) and rec.kind == "transport" and rec.state["port"] is port and not rec.state["closed"]),
+                Obligation(base + "/no_listener_other_than_the_recorded_one", ctx, all(t is rec for t in open_now)),
+                Obligation(base + "/every_transport_it_bound_is_wired_to_the_parser_and_callback", ctx, all(wired(ip, t, cb) for t in new if not t.state["closed"])),
+                Obligation(base + "/running_flag_untouched_inside_the_loop", ctx, b.attrs.get("_is_running") is flag0),
+                Obligation(base + "/port_list_callback_and_map_not_replaced", ctx, b.attrs.get("_transports") is pm and b.attrs.get("_on_device") is cb
+                           and isinstance(b.attrs.get("_broadcast_ports"), OneStep))]
+    u["any_ports_start_step"] = Unit("any_ports_start_step", PROP, start_step, functions=[B + "SwitcherBridge.start"])
+
+    def stop_step(ip, ctx):
+        pre = ["none", "open", "closed"][ctx.fork(3)]
+        ip.contracts = {}
+        b, cb, port, pm, cur = step_setup(ip, ctx, pre)
+        flag0 = bool(ctx.fork(2)) if pre == "open" else False
+        b.attrs["_is_running"] = flag0
+        base = f"{PROP}/any_ports/stop_step/recorded_{pre}"
+        try:
+            ip.call_function(b.cls.find_method("stop"), [b], {}, ctx)
+            return [Obligation(base + "/loop_reached", ctx, False)]
+        except LoopStepDone:
+            pass
+        return [Obligation(base + "/this_ports_transport_is_closed_afterwards", ctx, cur is None or cur.state["closed"] is True),
+                Obligation(base + "/nothing_stored_nothing_else_touched", ctx, not pm.stores and len(ctx.sockets) == (0 if cur is None else 1)),
+                Obligation(base + "/running_flag_untouched_inside_the_loop", ctx, b.attrs.get("_is_running") is flag0),
+                Obligation(base + "/port_list_callback_and_map_not_replaced", ctx, b.attrs.get("_transports") is pm and b.attrs.get("_on_device") is cb
+                           and isinstance(b.attrs.get("_broadcast_ports"), OneStep))]
+    u["any_ports_stop_step"] = Unit("any_ports_stop_step", PROP, stop_step, functions=[B + "SwitcherBridge.stop"])
+
+    def base_cases(ip, ctx):
+        # empty port list: the code after the loops
+        ip.contracts = {}
+        obs = []
+        for flag in (False, True):
+            b, cb = new_bridge(ip, ctx, 0)
+            b.attrs["_is_running"] = flag
+            ctx.sockets = []
+            ob = outcome_of(lambda: ip.call_function(b.cls.find_method("start"), [b], {}, ctx))
+            obs.append(Obligation(f"{PROP}/any_ports/after_start_loop/running_set_{flag}", ctx, ob[0] == "ret" and b.attrs.get("_is_running") is True))
+            b.attrs["_is_running"] = flag
+            ob = outcome_of(lambda: ip.call_function(b.cls.find_method("stop"), [b], {}, ctx))
+            obs.append(Obligation(f"{PROP}/any_ports/after_stop_loop/running_cleared_{flag}", ctx, ob[0] == "ret" and b.attrs.get("_is_running") is False))
+        return obs
+    def ctxmgr(ip, ctx):
+        # constructor and context manager over an opaque port list, start/stop by contract
+        class StartContract:
+            qualname = B + "SwitcherBridge.start"
+
+            def apply(self, ip, f, args, kwargs, ctx):
+                ctx.ghost.events.append(("start_contract", args[0]))
+                if ctx.fork(2):
+                    raise PyExc(ExcVal("OSError", ("bind",)))
+                args[0].attrs["_is_running"] = True
+                return None
+        ip.contracts = {StopContract.qualname: StopContract(), StartContract.qualname: StartContract()}
+        cb = EnvObj("callback")
+        ports = OneStep(z3.Int("port"), {})
+        ctx.sockets = []
+        b = ip.instantiate(cls(B + "SwitcherBridge"), [cb, ports], {}, ctx)
+        obs = [Obligation(f"{PROP}/any_ports/__init__/keeps_the_port_list_and_callback_starts_stopped_with_nothing_recorded", ctx,
+                          b.attrs.get("_broadcast_ports") is ports and b.attrs.get("_on_device") is cb and b.attrs.get("_is_running") is False
+                          and isinstance(b.attrs.get("_transports"), PyDict) and not b.attrs["_transports"].d and not ctx.sockets)]
+        which = ["enter", "exit_none", "exit_exc"][ctx.fork(3)]
+        ctx.ghost.events.clear()
+        if which == "enter":
+            ob = outcome_of(lambda: ip.call_function(b.cls.find_method("__aenter__"), [b], {}, ctx))
+            starts = [e for e in ctx.ghost.events if e[0] == "start_contract"]
+            obs.append(Obligation(f"{PROP}/any_ports/__aenter__/is_exactly_one_start", ctx, len(starts) == 1 and starts[0][1] is b
+                                  and not [e for e in ctx.ghost.events if e[0] == "stop_contract"]))
+            obs.append(Obligation(f"{PROP}/any_ports/__aenter__/returns_self_or_propagates_the_OSError", ctx,
+                                  (ob[0] == "ret" and ob[1] is b and b.attrs.get("_is_running") is True) or (ob[0] == "exc" and ob[1].cls == "OSError")))
+        else:
+            b.attrs["_is_running"] = bool(ctx.fork(2))
+            args = [None, None, None] if which == "exit_none" else [object(), ExcVal("ValueError", ("body",)), None]
+            ob = outcome_of(lambda: ip.call_function(b.cls.find_method("__aexit__"), [b] + args, {}, ctx))
+            stops = [e for e in ctx.ghost.events if e[0] == "stop_contract"]
+            obs.append(Obligation(f"{PROP}/any_ports/__aexit__/{which}/is_exactly_one_stop_and_not_a_start", ctx, len(stops) == 1 and stops[0][1] is b
+                                  and not [e for e in ctx.ghost.events if e[0] == "start_contract"]))
+            obs.append(Obligation(f"{PROP}/any_ports/__aexit__/{which}/returns_None_so_the_body_exception_propagates", ctx, ob[0] == "ret" and ob[1] is None))
+            obs.append(Obligation(f"{PROP}/any_ports/__aexit__/{which}/not_running", ctx, ip.getattr(b, "is_running", ctx) is False))
+        return obs
+    u["any_ports_context_manager"] = Unit("any_ports_context_manager", PROP, ctxmgr, functions=[B + "SwitcherBridge." + m for m in
+                                          ("__init__", "__aenter__", "__aexit__", "is_running")])
+
+    u["any_ports_base"] = Unit("any_ports_base", PROP, base_cases, functions=[B + "SwitcherBridge.start", B + "SwitcherBridge.stop"])
 
     ALPHA = ["start_ok", "start_fail0", "start_fail1", "stop", "enter", "leave", "leave_exc"]
     N = 4 if tier == "quick" else 5
